@@ -376,15 +376,24 @@ fn parse_fixed_header(mut stream: Iter<u8>) -> Result<FixedHeader, Error> {
     }
 
     let byte1 = stream.next().unwrap();
-    let (len_len, len) = length(stream)?;
+    let (len_len, len) = variable_byte_integer(stream)?;
 
     Ok(FixedHeader::new(*byte1, len_len, len))
 }
 
+/// Parses a variable byte integer inside an already complete frame (property length,
+/// subscription identifier). Running out of bytes there means the packet is malformed,
+/// it is not a request for more bytes
+fn length(stream: Iter<u8>) -> Result<(usize, usize), Error> {
+    match variable_byte_integer(stream) {
+        Err(Error::InsufficientBytes(_)) => Err(Error::MalformedPacket),
+        result => result,
+    }
+}
+
 /// Parses variable byte integer in the stream and returns the length
 /// and number of bytes that make it. Used for remaining length calculation
-/// as well as for calculating property lengths
-fn length(stream: Iter<u8>) -> Result<(usize, usize), Error> {
+fn variable_byte_integer(stream: Iter<u8>) -> Result<(usize, usize), Error> {
     let mut len: usize = 0;
     let mut len_len = 0;
     let mut done = false;
